@@ -2,6 +2,9 @@ import OmplModel.Proofs.PdfSample
 import OmplModel.Proofs.ESTPdf
 import OmplModel.Proofs.ProjEST
 import OmplModel.Proofs.AtlasPdf
+import OmplModel.Proofs.PdfChecked
+import OmplModel.Proofs.CellPdf
+import Mathlib.MeasureTheory.Measure.Lebesgue.Basic
 import Mathlib.Tactic.FieldSimp
 import Mathlib.Tactic.Ring
 import Mathlib.Algebra.Order.Field.Basic
@@ -127,6 +130,36 @@ theorem refines_assoc [WOps α] (ops : List (Op α)) :
 example : (@Pdf.run Int intScale.toWOps Pdf.empty [.add 1, .add 2, .remove 0, .update 1 7]).getWeight 1 = some 7 := by
   decide
 
+/-- [AF] **no edit reads or writes outside the structure's storage** (one step): on every state with the tree shape and
+synchronised `index_` fields, the CHECKED twin of the operation (`Model/PdfChecked.lean`: every `tree_.front()`,
+`row.back()`, `row.pop_back()`, `tree_[row][index]`, `data_[index]`, `tree_.back()[0]/[1]` of PDF.h made explicit, `none`
+when one leaves its container) succeeds and computes exactly the guarded operation the other theorems are about.  Holds
+for every weight type, so also under floating-point rounding (the driver runs the twins at `Float`). -/
+theorem edits_inbounds_of_inv [WOps α] (s : Pdf α) (op : Op α) (hs : ShapeInv s) (hix : IdxSync s) :
+    s.stepC op = some (s.step op) := stepC_eq s op hs hix
+
+/-- [AF] … and for every finite sequence of add / update / remove / clear / sample from the empty structure: no access of
+any edit leaves the storage (`runC` never yields `none`), and the checked run is the run.  With `sample_inbounds` this is
+the clause "no operation reads or writes outside the structure's storage" for all five operations. -/
+theorem edits_inbounds [WOps α] (ops : List (Op α)) :
+    (Pdf.empty : Pdf α).runC ops = some ((Pdf.empty : Pdf α).run ops) :=
+  runC_eq ops _ shapeInv_empty idxSync_empty
+
+example : ((@Pdf.runC Int intScale.toWOps Pdf.empty [.add 1, .add 2, .add 3, .update 1 5, .remove 0, .remove 2]).map
+    (fun s => (s.data, s.tree))) = some (#[1], [#[5]]) := by decide
+
+/-- the twins are not vacuous: on a state whose row 1 is one cell short the guarded `update` silently skips the write
+(`Array.modify` out of range) while the twin reports the access; likewise `remove` on a tree without its leaf row. -/
+example : (@Pdf.updateC Int intScale.toWOps
+    { data := #[0, 1, 2], idx := fun h => if h < 3 then some h else none, tree := [#[1, 1, 1], #[2], #[3]], next := 3 } 2 7).isNone
+    = true := by decide
+example : (@Pdf.removeC Int intScale.toWOps
+    { data := #[0, 1, 2], idx := fun h => if h < 3 then some h else none, tree := [#[1, 1, 1], #[], #[3]], next := 3 } 2).isNone
+    = true := by decide
+example : (@Pdf.addC Int intScale.toWOps
+    { data := #[0], idx := fun h => if h < 1 then some h else none, tree := [], next := 1 } 4).isNone
+    = true := by decide
+
 end AF
 
 /-! ## F2: the descent before the fix is index-safe only while parents equal their children's sum -/
@@ -240,7 +273,129 @@ example := descents_agree_exact (α := ℚ) [.add 1, .add 0, .add 3, .remove 0] 
 example := zero_weight_never_drawn (α := ℚ) [.add 1, .add 0, .add 3, .update 0 2, .remove 1] (by simp [OpOk]) (1 / 4)
   (by norm_num) (by norm_num)
 
+/-- [EX] **which values of `r` draw which element** (the selection rule as an equivalence).  After any operation sequence
+with non-negative weights and positive total weight `T`, for `0 < r ≤ 1` and every position `i`:
+`sample r` returns the element at position `i`  ⇔  `prefix i < r·T ≤ prefix (i+1)` — the element's cumulative-weight
+interval in the structure's element order (half-open on the left, so adjacent intervals do not overlap and an element of
+weight 0 has an empty interval). -/
+theorem sample_iff_interval (ops : List (Op α)) (hok : ∀ op ∈ ops, OpOk op) (r : α) (h0 : 0 < r) (h1 : r ≤ 1) :
+    let s := (Pdf.empty : Pdf α).run ops
+    0 < pre (row0 s) s.data.size →
+    ∀ i (hi : i < s.data.size), s.sample r = .ok s.data[i] ↔
+      (pre (row0 s) i < r * pre (row0 s) s.data.size ∧ r * pre (row0 s) s.data.size ≤ pre (row0 s) (i + 1)) := by
+  intro s htot i hi
+  obtain ⟨hsh, hsum, hnn⟩ := reachable_inv ops (Pdf.empty : Pdf α) hok shapeInv_empty sumInv_empty leavesNonneg_empty
+  have hix : IdxSync s := idx_sync_preserved ops
+  have hn : 0 < s.data.size := by omega
+  obtain ⟨j, hj, hres, hle, hlt⟩ := sample_interval s r hsh hsum hn (le_of_lt h0) h1 hnn
+  have hX : 0 < r * pre (row0 s) s.data.size := mul_pos h0 htot
+  constructor
+  · intro hsi
+    rw [hres] at hsi
+    have e : j = i := hix.inj hj hi (by injection hsi)
+    subst e
+    refine ⟨?_, hle⟩
+    rcases Nat.eq_zero_or_pos j with hz | hp
+    · subst hz; simpa [pre] using hX
+    · exact hlt hp
+  · rintro ⟨ha, hb⟩
+    have e : j = i := by
+      rcases Nat.lt_trichotomy j i with hji | hji | hji
+      · have := pre_mono (row0 s) hnn (j + 1) i hji
+        linarith
+      · exact hji
+      · have := pre_mono (row0 s) hnn (i + 1) j hji
+        have := hlt (by omega)
+        linarith
+    subst e
+    exact hres
+
+example := sample_iff_interval (α := ℚ) [.add 1, .add 0, .add 3, .remove 0] (by simp [OpOk]) (1 / 2) (by norm_num) (by norm_num)
+
 end ring
+
+section field
+variable {K : Type} [Field K] [LinearOrder K] [IsStrictOrderedRing K]
+
+/-- [EX] **elements are drawn in proportion to their current weights.**  After any operation sequence with non-negative
+weights and positive total `T`, the set of sampling values `r ∈ (0,1]` for which `sample` returns the element at position
+`i` is exactly the interval `(prefix i / T, prefix (i+1) / T]`; it lies inside `[0,1]` and its length is
+`w_i / T` where `w_i` is the element's current weight (`getWeight` of its handle).  So for `r` uniform on `[0,1]` element
+`i` is drawn with probability `w_i / T` (see `sample_probability` for the measure-theoretic form over `ℝ`). -/
+theorem sample_proportional (ops : List (Op K)) (hok : ∀ op ∈ ops, OpOk op) :
+    let s := (Pdf.empty : Pdf K).run ops
+    let T := pre (row0 s) s.data.size
+    0 < T →
+    ∀ i (hi : i < s.data.size),
+      {r : K | 0 < r ∧ r ≤ 1 ∧ s.sample r = .ok s.data[i]} = Set.Ioc (pre (row0 s) i / T) (pre (row0 s) (i + 1) / T) ∧
+      0 ≤ pre (row0 s) i / T ∧ pre (row0 s) (i + 1) / T ≤ 1 ∧
+      ∃ w, s.getWeight s.data[i] = some w ∧ 0 ≤ w ∧ pre (row0 s) (i + 1) / T - pre (row0 s) i / T = w / T := by
+  intro s T hT i hi
+  obtain ⟨hsh, hsum, hnn⟩ := reachable_inv ops (Pdf.empty : Pdf K) hok shapeInv_empty sumInv_empty leavesNonneg_empty
+  have hix : IdxSync s := idx_sync_preserved ops
+  have hsz := row0_size s hsh
+  have hi' : i < (row0 s).size := by omega
+  have hup : pre (row0 s) (i + 1) ≤ T := pre_mono (row0 s) hnn (i + 1) s.data.size (by omega)
+  refine ⟨?_, div_nonneg (pre_nonneg _ hnn i) (le_of_lt hT), (div_le_one hT).mpr hup, (row0 s)[i], ?_, ?_, ?_⟩
+  · ext r
+    simp only [Set.mem_ofPred_eq, Set.mem_Ioc]
+    constructor
+    · rintro ⟨h0, h1, hs⟩
+      have := (sample_iff_interval ops hok r h0 h1 hT i hi).mp hs
+      exact ⟨(div_lt_iff₀ hT).mpr this.1, (le_div_iff₀ hT).mpr this.2⟩
+    · rintro ⟨ha, hb⟩
+      have ha' := (div_lt_iff₀ hT).mp ha
+      have hb' := (le_div_iff₀ hT).mp hb
+      have h0 : 0 < r := lt_of_le_of_lt (div_nonneg (pre_nonneg _ hnn i) (le_of_lt hT)) ha
+      have h1 : r ≤ 1 := le_trans hb ((div_le_one hT).mpr hup)
+      exact ⟨h0, h1, (sample_iff_interval ops hok r h0 h1 hT i hi).mpr ⟨ha', hb'⟩⟩
+  · rw [getWeight_eq, hix.fwd i hi]
+    simp [hi']
+  · have := hnn i
+    rwa [cell_lt _ _ hi'] at this
+  · have hc : cell (row0 s) i = (row0 s)[i] := cell_lt _ _ hi'
+    simp only [pre, hc]
+    field_simp
+    ring
+
+example := sample_proportional (K := ℚ) [.add 1, .add 0, .add 3, .update 0 2, .remove 1] (by simp [OpOk])
+
+end field
+
+section real
+open MeasureTheory
+
+/-- [EX] **probability form** over the reals: after any operation sequence with non-negative weights and positive total
+`T`, the Lebesgue measure of the set of `r ∈ [0,1]` (endpoints included) for which `sample r` returns the element at
+position `i` is `w_i / T`, `w_i` the element's current weight: with `r` drawn uniformly from `[0,1]` (what every caller
+does: `rng_.uniform01()`), each element is drawn with probability weight / total, a zero-weight element with probability 0. -/
+theorem sample_probability (ops : List (Op ℝ)) (hok : ∀ op ∈ ops, OpOk op) :
+    let s := (Pdf.empty : Pdf ℝ).run ops
+    let T := pre (row0 s) s.data.size
+    0 < T →
+    ∀ i (hi : i < s.data.size), ∃ w, s.getWeight s.data[i] = some w ∧
+      volume {r : ℝ | 0 ≤ r ∧ r ≤ 1 ∧ s.sample r = .ok s.data[i]} = ENNReal.ofReal (w / T) := by
+  intro s T hT i hi
+  obtain ⟨hset, _, _, w, hw, _, hlen⟩ := sample_proportional ops hok hT i hi
+  refine ⟨w, hw, ?_⟩
+  rw [← hlen, ← Real.volume_Ioc, ← hset]
+  apply le_antisymm
+  · calc volume {r : ℝ | 0 ≤ r ∧ r ≤ 1 ∧ s.sample r = .ok s.data[i]}
+        ≤ volume (insert (0 : ℝ) {r : ℝ | 0 < r ∧ r ≤ 1 ∧ s.sample r = .ok s.data[i]}) := by
+          apply measure_mono
+          intro r hr
+          rcases eq_or_lt_of_le hr.1 with h | h
+          · exact Or.inl h.symm
+          · exact Or.inr ⟨h, hr.2.1, hr.2.2⟩
+      _ = volume {r : ℝ | 0 < r ∧ r ≤ 1 ∧ s.sample r = .ok s.data[i]} := by
+          exact measure_congr (insert_ae_eq_self 0 _)
+  · apply measure_mono
+    intro r hr
+    exact ⟨le_of_lt hr.1, hr.2.1, hr.2.2⟩
+
+example := sample_probability [.add 1, .add 0, .add 3, .update 0 2, .remove 1] (by simp [OpOk])
+
+end real
 end EX
 /-! ## the main user of the PDF: `geometric::EST` -/
 open OmplModel.EST OmplModel.PlannerReport
@@ -840,5 +995,71 @@ theorem atlas_skip_add_breaks :
       (specRun ([] : List Int) atlasHistory) = [0, 2, 1] := by decide
 
 end Atlas
+
+/-! ## the cell-PDF protocol of `geometric::SBL`, `control::EST` (and ProjEST): add / re-weigh / remove per grid cell -/
+
+section CellPdf
+open OmplModel.CellPdf
+
+/-- **The cell PDF follows the grid through additions AND removals of motions** [AF].  For every finite history of
+`addMotion(coord)` / `removeMotion(coord)` / `clear()` (the PDF part of SBL.cpp `addMotion` / `removeMotion`,
+control/EST.cpp `addMotion`), with `net ops c` = the number of motions the history leaves in the cell of coordinate `c`:
+* the grid holds a cell for `c` exactly when `net ops c > 0`, and its motion count is `net ops c`;
+* that cell's `elem_` is a stored PDF element whose payload is the cell, and its weight is `wCell (net ops c)` — the coded
+  `1.0 / cell->data.size()` of the CURRENT size (a new cell's `1.0` is `wCell 1`: hypothesis `hone`, true for `Float` and
+  in every field);
+* every stored PDF element is the `elem_` of the grid cell its payload names (so elements ↔ non-empty cells is a
+  bijection: no element survives its cell, no cell is without element);
+* `ShapeInv`, `IdxSync` of the PDF.  (`hw`: `add` does not reject `wOne`.) -/
+theorem cellpdf_sync {α : Type} [WOps α] (cfg : CellPdf.Cfg α) (hw : WOps.lt cfg.wOne (WOps.zero : α) = false)
+    (hone : cfg.wCell 1 = cfg.wOne) (ops : List COp) :
+    let st := CellPdf.run cfg ({} : CellPdf.St α) ops
+    ShapeInv st.pdf ∧ IdxSync st.pdf ∧
+      (∀ c, (st.cell c).map (·.1) = if net ops c = 0 then none else some (net ops c)) ∧
+      (∀ c n e, st.cell c = some (n, e) →
+        e ∈ st.pdf.data ∧ st.owner e = some c ∧ st.pdf.getWeight e = some (cfg.wCell (net ops c))) ∧
+      (∀ h, h ∈ st.pdf.data → ∃ c n, st.owner h = some c ∧ st.cell c = some (n, h)) := by
+  intro st
+  obtain ⟨hinv, hcnt⟩ := run_inv cfg hw hone ops ({} : CellPdf.St α) (fun _ => 0) (cinv_empty cfg)
+    (fun c => by simp)
+  refine ⟨hinv.shape, hinv.idx, hcnt, ?_, ?_⟩
+  · intro c n e hc
+    obtain ⟨_, hown, hwt⟩ := hinv.fwd c n e hc
+    have hn : n = net ops c := by
+      have := hcnt c
+      rw [hc] at this
+      simp only [Option.map_some] at this
+      by_cases hz : (List.foldl netStep (fun _ => 0) ops) c = 0
+      · simp [hz] at this
+      · simp only [hz, if_false, Option.some.injEq] at this
+        exact this
+    refine ⟨mem_of_gw _ hinv.idx e (by rw [hwt]; rfl), hown, ?_⟩
+    rw [hwt, hn]
+  · intro h hm
+    exact hinv.bwd h (gw_of_mem _ hinv.shape hinv.idx h hm)
+
+/-- **… and no PDF edit of the protocol leaves the storage** [AF]: the same history run through the checked twins of
+`add` / `update` / `remove` never yields `none`. -/
+theorem cellpdf_inbounds {α : Type} [WOps α] (cfg : CellPdf.Cfg α) (hw : WOps.lt cfg.wOne (WOps.zero : α) = false)
+    (hone : cfg.wCell 1 = cfg.wOne) (ops : List COp) :
+    CellPdf.runC cfg ({} : CellPdf.St α) ops = some (CellPdf.run cfg ({} : CellPdf.St α) ops) :=
+  CellPdf.runC_eq cfg hw hone ops _ (cinv_empty cfg)
+
+/-- non-vacuity (kernel-evaluated, integer weights `60 / n`): three motions in cell (0), one in (1), one in (2); then
+(1) is emptied (its element is removed: the last element moves into its slot) and (0) loses one motion. -/
+def cellToy : CellPdf.Cfg Int := { wOne := 60, wCell := fun n => 60 / Int.ofNat n }
+
+def cellHistory : List COp := [.add [0], .add [1], .add [0], .add [2], .add [0], .remove [1], .remove [0], .remove [7]]
+
+example : (@CellPdf.run Int intScale.toWOps cellToy {} cellHistory).pdf.tree = [#[30, 60], #[90]] ∧
+    (@CellPdf.run Int intScale.toWOps cellToy {} cellHistory).pdf.data = #[0, 2] ∧
+    (@CellPdf.run Int intScale.toWOps cellToy {} cellHistory).cell [0] = some (2, 0) ∧
+    (@CellPdf.run Int intScale.toWOps cellToy {} cellHistory).cell [1] = none ∧
+    (@CellPdf.run Int intScale.toWOps cellToy {} cellHistory).cell [2] = some (1, 2) ∧
+    net cellHistory [0] = 2 ∧ net cellHistory [1] = 0 := by decide
+example := @cellpdf_sync Int intScale.toWOps cellToy (by decide) (by decide) cellHistory
+example := @cellpdf_inbounds Int intScale.toWOps cellToy (by decide) (by decide) cellHistory
+
+end CellPdf
 
 end OmplModel.Props.C12
